@@ -210,7 +210,7 @@ def check_records(case, ctx: Ctx):
     if case["sort"]:
         keys = list(zip(out["bin1_id"].tolist(), out["bin2_id"].tolist()))
         check(keys == sorted(keys), "sort=True output is not sorted by (bin1_id, bin2_id)")
-    if status == "ok" and case["tril"] is None and not case["sort"]:
+    if status == "ok" and not case["sort"]:
         # the same records with chromosomes given as ids already (decode_chroms=False; unlisted = -1, dropped by the
         # documented filter whether or not the positions are validated)
         ids = {nm: k for k, nm in enumerate(bt["names"])}
@@ -219,8 +219,10 @@ def check_records(case, ctx: Ctx):
         df2["chrom2"] = np.array([ids.get(c, -1) for c in df_in["chrom2"]], dtype=np.int64)
         for validate in (True, False):
             san2 = call("sanitize_records(decode_chroms=False)", sanitize_records, gen.bins_df(bt), schema="pairs", decode_chroms=False,
-                        is_one_based=case["one_based"], tril_action=None, validate=validate)
-            o2 = call(f"sanitize_records(decode_chroms=False, validate={validate})(chunk)", san2, df2.copy())
+                        is_one_based=case["one_based"], tril_action=case["tril"], validate=validate)
+            before2 = df2.copy()
+            o2 = call(f"sanitize_records(decode_chroms=False, tril_action={case['tril']!r}, validate={validate})(chunk)", san2, df2)
+            check(df2.equals(before2), "sanitize_records(decode_chroms=False) modified the caller's frame")
             got2 = sorted(zip(o2["rid"].tolist(), o2["bin1_id"].tolist(), o2["bin2_id"].tolist()))
             want2 = sorted((rid, exp[rid][0], exp[rid][1]) for rid in want_ids)
             check(got2 == want2, lambda: f"pre-encoded chromosome ids, validate={validate}: (record, bin1, bin2) {got2[:6]} want {want2[:6]}")
